@@ -34,7 +34,7 @@ ModsOf(d) ==
     ELSE IF d.eqtest
     THEN {[n |-> "", v |-> NoneV]} \cup
          UNION {{[n |-> d.prog[d.root].fields[i].name, v |-> x] : x \in FieldDom(d.prog, d.prog[d.root].fields[i], 0)} :
-                   i \in {j \in 1..Len(d.prog[d.root].fields) : d.prog[d.root].fields[j].k \notin {"Em", "Move"}}}
+                   i \in {j \in 1..Len(d.prog[d.root].fields) : d.prog[d.root].fields[j].k \notin {"Em", "Move", "Emb"}}}
     ELSE {[n |-> "", v |-> NoneV]} \cup
          UNION {{[n |-> d.prog[d.root].fields[i].name, v |-> x] : x \in FieldDom(d.prog, d.prog[d.root].fields[i], 1)} :
                    i \in {j \in 1..Len(d.prog[d.root].fields) : d.prog[d.root].fields[j].k = "Bits"}}
@@ -114,7 +114,8 @@ U_C07V(zz) == {V1(BitFields(ws), "full", TRUE) : ws \in {<<4, 4>>, <<3, 5>>, <<1
           \cup {V1(BitFields(ws), "fullbad", FALSE) : ws \in {<<2, 3, 3>>, <<4, 8, 4>>}}
 
 \* -------------------------------------------------------------------- C20
-U_C20(zz) == {EqDecl([C0 |-> Class(DefaultOpts, <<U1("a"), IntF("b", 2, TRUE, "little"), DataF("d", SzField("a"))>>)]),
+U_C20(zz) == {EqDecl([C0 |-> Class(DefaultOpts, Embedded("p", "C1", <<[n |-> "x", v |-> IntV(1)]>>, Sub1.fields) \o <<U1("z")>>), C1 |-> Sub1]),
+          EqDecl([C0 |-> Class(DefaultOpts, <<U1("a"), IntF("b", 2, TRUE, "little"), DataF("d", SzField("a"))>>)]),
           EqDecl([C0 |-> Class(DefaultOpts, <<U1("a"), MvField(U1("b"), [kind |-> "at", arg |-> SzConst(3), ref |-> "innermost-pkt"]), U1("c")>>)]),
           EqDecl([C0 |-> Class(DefaultOpts, <<U1("a"), MvField(DataF("d", SzConst(1)), [kind |-> "shift", arg |-> SzConst(1), ref |-> "current-offset"]),
                                               MvField(U1("c"), [kind |-> "aligned", arg |-> SzConst(4), ref |-> "begins"])>>)]),
@@ -146,6 +147,10 @@ U_C19(zz) ==
      VDecl([C0 |-> Class(DefaultOpts, <<U1("t"), RefSelF("v", EF("t"), <<[key |-> 0, alt |-> IntF("", 2, FALSE, "default")],
                                                                           [key |-> 1, alt |-> RefF("", "C1")]>>, "chooses", IntV(3)),
                                         DataF("m", SzMarker(<<0>>, FALSE, TRUE)), EmF("tail")>>), C1 |-> SubD], "subsets", 0, FALSE),
+     \* an embedding reference: the embedded fields take the declared defaults of the embedded CLASS (not the values of the
+     \* prototype instance - the documented quirk), and the embedded class itself is left as it was declared
+     VDecl([C0 |-> Class(DefaultOpts, Embedded("p", "C1", <<[n |-> "x", v |-> IntV(1)], [n |-> "y", v |-> IntV(2)]>>, SubD.fields)
+                                        \o <<RefF("q", "C1"), U1("z")>>), C1 |-> SubD], "subsets", 1, FALSE),
      \* described fields: a keyword naming one forces its value (it reads and packs as given), otherwise it is computed
      V1(<<WithDesc(WithDflt(U1("n"), 9), [kind |-> "autolen", of |-> "d"]), WithDflt(DataF("d", SzMarker(<<0>>, FALSE, TRUE)), <<65, 66>>), U1("z")>>,
         "subsets", FALSE),
